@@ -453,3 +453,46 @@ pub proof fn lemma_smhd_pre_len(b: SmhdBox)
     broadcast use lemma_be_bytes_len;
 }
 
+// ---- vpcc: ISO/IEC 14496-12 section VP Codec ISO Media File Format Binding 2.2 VPCodecConfigurationBox extends FullBox('vpcc', version, flags)
+pub open spec fn vpcc_off_0(b: VpccBox) -> int { 12 }
+pub open spec fn vpcc_off_1(b: VpccBox) -> int { vpcc_off_0(b) + 1 }
+pub open spec fn vpcc_off_2(b: VpccBox) -> int { vpcc_off_1(b) + 1 }
+pub open spec fn vpcc_off_3(b: VpccBox) -> int { vpcc_off_2(b) + 1 }
+pub open spec fn vpcc_off_4(b: VpccBox) -> int { vpcc_off_3(b) + 1 }
+pub open spec fn vpcc_off_5(b: VpccBox) -> int { vpcc_off_4(b) + 1 }
+pub open spec fn vpcc_off_6(b: VpccBox) -> int { vpcc_off_5(b) + 1 }
+pub open spec fn vpcc_off_7(b: VpccBox) -> int { vpcc_off_6(b) + 2 }
+pub open spec fn vpcc_len(b: VpccBox) -> int { vpcc_off_7(b) }
+
+pub open spec fn vpcc_rd_wire(b: VpccBox) -> bool { flags_wire(b.flags) && (true) }
+pub open spec fn vpcc_wire(b: VpccBox) -> bool { flags_wire(b.flags) && (b.bit_depth < 16 && b.chroma_subsampling < 8) }
+
+/// layout: what the decoder must have seen (reserved fields are not constrained on input)
+pub open spec fn vpcc_at(d: Seq<u8>, p: int, b: VpccBox) -> bool {
+    &&& fullbox_at(d, p, b.version, b.flags)
+    &&& (d[p + vpcc_off_0(b)] == b.profile)
+    &&& (d[p + vpcc_off_1(b)] == b.level)
+    &&& (b.bit_depth == d[p + vpcc_off_2(b)] >> 4 && b.chroma_subsampling == (d[p + vpcc_off_2(b)] << 4) >> 5 && b.video_full_range_flag == (d[p + vpcc_off_2(b)] & 0x01 == 1))
+    &&& (d[p + vpcc_off_3(b)] == b.color_primaries)
+    &&& (d[p + vpcc_off_4(b)] == b.transfer_characteristics)
+    &&& (d[p + vpcc_off_5(b)] == b.matrix_coefficients)
+    &&& (be16(d, p + vpcc_off_6(b)) == b.codec_initialization_data_size)
+}
+
+/// reference encoder, field by field
+pub open spec fn vpcc_pre_0(b: VpccBox) -> Seq<u8> { hdr_bytes(vpcc_len(b) as u64, 0x76706343) + fullbox_bytes(b.version, b.flags) }
+pub open spec fn vpcc_pre_1(b: VpccBox) -> Seq<u8> { vpcc_pre_0(b) + seq![b.profile] }
+pub open spec fn vpcc_pre_2(b: VpccBox) -> Seq<u8> { vpcc_pre_1(b) + seq![b.level] }
+pub open spec fn vpcc_pre_3(b: VpccBox) -> Seq<u8> { vpcc_pre_2(b) + seq![((b.bit_depth << 4) | (b.chroma_subsampling << 1) | (b.video_full_range_flag as u8))] }
+pub open spec fn vpcc_pre_4(b: VpccBox) -> Seq<u8> { vpcc_pre_3(b) + seq![b.color_primaries] }
+pub open spec fn vpcc_pre_5(b: VpccBox) -> Seq<u8> { vpcc_pre_4(b) + seq![b.transfer_characteristics] }
+pub open spec fn vpcc_pre_6(b: VpccBox) -> Seq<u8> { vpcc_pre_5(b) + seq![b.matrix_coefficients] }
+pub open spec fn vpcc_pre_7(b: VpccBox) -> Seq<u8> { vpcc_pre_6(b) + be_bytes(b.codec_initialization_data_size as nat, 2) }
+pub open spec fn vpcc_bytes(b: VpccBox) -> Seq<u8> { vpcc_pre_7(b) }
+
+pub proof fn lemma_vpcc_pre_len(b: VpccBox)
+    ensures vpcc_pre_0(b).len() == vpcc_off_0(b), vpcc_pre_1(b).len() == vpcc_off_1(b), vpcc_pre_2(b).len() == vpcc_off_2(b), vpcc_pre_3(b).len() == vpcc_off_3(b), vpcc_pre_4(b).len() == vpcc_off_4(b), vpcc_pre_5(b).len() == vpcc_off_5(b), vpcc_pre_6(b).len() == vpcc_off_6(b), vpcc_pre_7(b).len() == vpcc_off_7(b)
+{
+    broadcast use lemma_be_bytes_len;
+}
+
